@@ -1,7 +1,223 @@
-(* C06  Output is a function of the input alone.  (theorems under development; see Proofs/OrderProofs.v) *)
-From Coq Require Import ZArith QArith List Bool Permutation.
-From Knut Require Import Model.Report Proofs.ReportSum Proofs.LedgerProofs.
+(* C06  Output is a function of the input alone.
+
+   Definitions: Model/Source.v (directives with their source position, journal.Builder on them,
+   Build with the source sort of /repo 69e47a8, the commands as functions of the built journal).
+   Proofs: Proofs/StableSort.v, Proofs/DeterminismProofs.v (arrival order),
+   Proofs/MapOrderProofs.v, Proofs/InferOrder.v, Proofs/PriceProofs.v (map iteration order).
+
+   A. ARRIVAL ORDER.  Files are parsed concurrently; the order in which their directives reach
+      Builder.Add depends on goroutine scheduling.  Build() returns the same journal -- days,
+      the five lists of every day, the period: Leibniz equality -- for every arrival order,
+      namely the journal a sequential load in source order (path, offset) produces; every
+      command of the model is a function of that journal.
+   B. MAP ITERATION ORDER.  Where the Go code ranges over a map the model has an association
+      list; each such function is invariant under permutation of the list in the sense that
+      reaches the output.
+   Not covered (see checks/c06.py LEVEL_NOTE): the Go scheduler and map seeds themselves are
+   sampled by the check, not enumerated; which of several erroneous directives is named in an
+   error message (stderr); float64 summation order in `portfolio weights`/`returns`. *)
+From Coq Require Import ZArith QArith List Bool Permutation Sorting.Sorted.
+From Knut Require Import Model.Str Model.Dec Model.Date Model.Account Model.Ledger Model.Price
+     Model.Journal Model.Check Model.Pipeline Model.Table Model.Report Model.JPrinter Model.Cli
+     Model.Beancount Model.CliTranscode Model.Perf Model.Weights Model.CliPortfolio Model.Source
+     Spec.PriceSpec
+     Proofs.StableSort Proofs.DeterminismProofs Proofs.MapOrderProofs Proofs.ReportSum
+     Proofs.LedgerProofs Proofs.PriceProofs.
+From Knut Require Model.Bayes Spec.FormatSpec Proofs.InferOrder.
 Import ListNotations.
+Open Scope Z_scope.
+
+(* ================================================================ A. arrival order *)
+
+(* [sort_by by_src] is sort.SliceStable with sourceBefore: it meets the contract of a stable
+   sort (ordered; a permutation; the elements of one source position keep their order) ... *)
+Theorem C06_slice_stable_meets_contract : forall A (l : list (src * A)),
+  sorted by_src (sort_by by_src l) /\ Permutation (sort_by by_src l) l /\
+  forall k, filter (has_src k) (sort_by by_src l) = filter (has_src k) l.
+Proof. exact @sort_src_contract. Qed.
+Print Assumptions C06_slice_stable_meets_contract.
+
+(* ... and the contract has no other solution *)
+Theorem C06_slice_stable_unique : forall A (l l' : list (src * A)),
+  sorted by_src l' -> (forall k, filter (has_src k) l' = filter (has_src k) l) -> l' = sort_by by_src l.
+Proof. exact @slice_stable_contract. Qed.
+Print Assumptions C06_slice_stable_unique.
+
+(* Build() on the directives in ANY arrival order = the builder of Model/Journal.v (the model
+   all other properties use) run on the directives in source order *)
+Theorem C06_build_is_source_order_load : forall l,
+  build_sorted_b l = builder_of (map snd (sort_by by_src l)).
+Proof. exact build_sorted_canonical. Qed.
+Print Assumptions C06_build_is_source_order_load.
+
+(* the arrival theorem: any permutation of the directives, when two directives with the same
+   source position are equal (two directives of a file have different offsets; a file
+   included twice yields equal directives) *)
+Theorem C06_arrival : forall l1 l2,
+  Permutation l1 l2 ->
+  (forall x y, In x l1 -> In y l1 -> fst x = fst y -> x = y) ->
+  build_sorted l1 = build_sorted l2 /\ build_sorted_b l1 = build_sorted_b l2.
+Proof. exact arrival_perm_both. Qed.
+Print Assumptions C06_arrival.
+
+(* with accruals one source position yields several (different) transactions, added together
+   and in order: the journal depends only on the per-position subsequences *)
+Theorem C06_arrival_classes : forall l1 l2,
+  (forall k, filter (has_src k) l1 = filter (has_src k) l2) -> build_sorted_b l1 = build_sorted_b l2.
+Proof. exact arrival_classes. Qed.
+Print Assumptions C06_arrival_classes.
+
+(* what the loader does: whole files arrive as batches, in any order (DESIGN.md:
+   run cmd (concat (permute files)) = run cmd (concat files)); accruals included *)
+Theorem C06_arrival_files : forall fs1 fs2 : list (list (src * directive)),
+  Permutation fs1 fs2 ->
+  (forall f g x y, In f fs1 -> In g fs1 -> In x f -> In y g -> s_path (fst x) = s_path (fst y) -> f = g) ->
+  build_sorted_b (concat fs1) = build_sorted_b (concat fs2).
+Proof. exact arrival_files. Qed.
+Print Assumptions C06_arrival_files.
+
+(* every command of the model that reads the journal: equal outputs (tables, bytes, results) *)
+Theorem C06_commands : forall l1 l2,
+  build_sorted_b l1 = build_sorted_b l2 ->
+  (forall cfg, run_sorted (balance_table_of cfg) l1 = run_sorted (balance_table_of cfg) l2) /\
+  (forall cfg, run_sorted (balance_csv_of cfg) l1 = run_sorted (balance_csv_of cfg) l2) /\
+  (forall cfg tc, run_sorted (balance_text_of cfg tc) l1 = run_sorted (balance_text_of cfg tc) l2) /\
+  (forall repaired, run_sorted (check_of repaired) l1 = run_sorted (check_of repaired) l2) /\
+  (forall lenient, run_sorted (print_of lenient) l1 = run_sorted (print_of lenient) l2) /\
+  (forall lenient c, run_sorted (transcode_of lenient c) l1 = run_sorted (transcode_of lenient c) l2) /\
+  (forall cfg u, run_sorted (weights_csv_of cfg u) l1 = run_sorted (weights_csv_of cfg u) l2) /\
+  (forall fx cfg, run_sorted (returns_of fx cfg) l1 = run_sorted (returns_of fx cfg) l2).
+Proof. exact commands_arrival. Qed.
+Print Assumptions C06_commands.
+
+(* and any other function of the journal; its value is that of the sequential source-order load *)
+Theorem C06_command_is_source_order : forall R (cmd : builder -> R) l,
+  run_sorted cmd l = cmd (builder_of (map snd (sort_by by_src l))).
+Proof. exact @run_sorted_canonical. Qed.
+Print Assumptions C06_command_is_source_order.
+
+(* the functions *_of ARE the commands of Model/Cli.v, CliTranscode.v, CliPortfolio.v: each
+   command is its flag validation, `load`, and the function of the builder *)
+Theorem C06_balance_factor : forall cfg ds,
+  balance_table cfg ds =
+  cbind (match bc_valuation cfg with
+         | Some v => if valid_commodity v then COk tt else CErr k_valuation v
+         | None => COk tt end) (fun _ => cbind (load ds) (balance_table_of cfg)).
+Proof. exact balance_table_factor. Qed.
+Print Assumptions C06_balance_factor.
+
+Theorem C06_check_factor : forall repaired ds, check_cmd_current repaired ds = cbind (load ds) (check_of repaired).
+Proof. exact check_factor. Qed.
+Print Assumptions C06_check_factor.
+
+Theorem C06_print_factor : forall lenient ds, print_cmd lenient ds = cbind (load ds) (print_of lenient).
+Proof. exact print_factor. Qed.
+Print Assumptions C06_print_factor.
+
+Theorem C06_transcode_factor : forall lenient v ds,
+  transcode_cmd lenient v ds =
+  cbind (valuation_flag v) (fun vo =>
+  match vo with
+  | Some c => cbind (load ds) (transcode_of lenient c)
+  | None => CErr k_valuation []
+  end).
+Proof. exact transcode_factor. Qed.
+Print Assumptions C06_transcode_factor.
+
+Theorem C06_weights_factor : forall cfg ds,
+  weights_csv_cmd cfg ds =
+  cbind (match pc_universe cfg with Some y => universe_load [] y | None => COk [] end) (fun u =>
+  cbind (check_valuation cfg) (fun _ => cbind (load ds) (weights_csv_of cfg u))).
+Proof. exact weights_factor. Qed.
+Print Assumptions C06_weights_factor.
+
+Theorem C06_returns_factor : forall fx cfg ds,
+  returns_cmd fx cfg ds = cbind (check_valuation cfg) (fun _ => cbind (load ds) (returns_of fx cfg)).
+Proof. exact returns_factor. Qed.
+Print Assumptions C06_returns_factor.
+
+(* Builder.Days (period boundaries; balance --close, portfolio) is called between loading and
+   Build: touching before Build = touching the built journal, as the *_of functions do *)
+Theorem C06_touch_then_build : forall b ds, tbuild (tbuilder_touch b ds) = builder_touch (tbuild b) ds.
+Proof. exact touch_then_build. Qed.
+Print Assumptions C06_touch_then_build.
+
+(* a sequence already in source order is built as Model/Journal.v builds it: the existing
+   model is the canonical-order instance; in particular one file keeps its textual order
+   (offsets not decreasing: the parts of an accrual share an offset) *)
+Theorem C06_in_source_order : forall l, sorted by_src l -> build_sorted_b l = builder_of (map snd l).
+Proof. exact build_sorted_in_order. Qed.
+Print Assumptions C06_in_source_order.
+
+Theorem C06_single_file : forall path ods,
+  StronglySorted Z.le (map fst ods) ->
+  build_sorted_b (file_directives path ods) = builder_of (map snd ods).
+Proof. exact single_file_textual_order. Qed.
+Print Assumptions C06_single_file.
+
+(* Build() before 69e47a8 (no sort) is the builder of Model/Journal.v on the ARRIVAL sequence,
+   and `knut print` shows the arrival order: two files, two outputs (finding F15) *)
+Theorem C06_pinned_build : forall l, build_pinned_b l = builder_of (map snd l).
+Proof. exact build_pinned_spec. Qed.
+Print Assumptions C06_pinned_build.
+
+Theorem C06_pinned_arrival_refuted :
+  exists l1 l2,
+    Permutation l1 l2 /\
+    (forall x y, In x l1 -> In y l1 -> fst x = fst y -> x = y) /\
+    run_pinned (print_of true) l1 <> run_pinned (print_of true) l2.
+Proof. exact pinned_arrival_refuted. Qed.
+Print Assumptions C06_pinned_arrival_refuted.
+
+(* ================================================================ B. map iteration order *)
+
+(* a map lookup: entries with distinct keys, in any order *)
+Theorem C06_map_lookup : forall V (m1 m2 : smap V) k,
+  NoDup (map fst m1) -> Permutation m1 m2 -> sm_get m1 k = sm_get m2 k.
+Proof. exact @sm_get_perm. Qed.
+Print Assumptions C06_map_lookup.
+
+(* Prices.Normalize (breadth-first, neighbours in name order since d83d924): the price map and
+   the normalised prices are functions of the latest declaration of every pair -- not of the
+   order of the declarations, and there is no enumeration order left in the algorithm *)
+Theorem C06_prices_order : forall h1 h2 ps1 ps2,
+  build h1 = Some ps1 -> build h2 = Some ps2 ->
+  (forall c t, latest h1 c t = latest h2 c t) ->
+  ps1 = ps2 /\ forall v, normalize ps1 v = normalize ps2 v.
+Proof. exact order_independent. Qed.
+Print Assumptions C06_prices_order.
+
+(* the pinned depth-first Normalize visits neighbours in map order: two orders, two prices (F3) *)
+Theorem C06_dfs_refuted :
+  exists ps v c p order,
+    build alt_history = Some ps /\ (forall k l, Permutation (order k l) l) /\
+    c <> v /\ stored ps v c = Some p /\
+    sm_get (normalize_dfs order ps v) c <> Some (truncate p 8) /\
+    sm_get (normalize_dfs order ps v) c <> sm_get (normalize_dfs id_order ps v) c.
+Proof. exact dfs_refuted. Qed.
+Print Assumptions C06_dfs_refuted.
+
+(* Valuate, DayStart: `for pos, qty := range quantities`.  For every enumeration order the same
+   adjustment transactions up to their order, or a missing-price error for every order *)
+Theorem C06_valuate_loop : forall v date prev cur pos1 pos2,
+  Permutation pos1 pos2 ->
+  adj_equiv (val_adjustments v date prev cur pos1) (val_adjustments v date prev cur pos2).
+Proof. exact val_adjustments_perm. Qed.
+Print Assumptions C06_valuate_loop.
+
+(* CloseAccounts, DayStart: `for k, quantity := range quantities` with values[k] *)
+Theorem C06_close_loop : forall date qs1 qs2 vs1 vs2,
+  Permutation qs1 qs2 -> NoDup (map fst vs1) -> Permutation vs1 vs2 ->
+  Permutation (closing_txns date qs1 vs1) (closing_txns date qs2 vs2).
+Proof. exact closing_txns_perm. Qed.
+Print Assumptions C06_close_loop.
+
+(* ... and the order of those transactions (of any bookings) does not reach the report: every
+   cell total is the same for every insertion order *)
+Theorem C06_report_totals : forall f k l1 l2 r,
+  Permutation l1 l2 -> (rsum f k (insert_all l1 r) == rsum f k (insert_all l2 r))%Q.
+Proof. exact report_totals_order_free. Qed.
+Print Assumptions C06_report_totals.
 
 (* the value total of a list of children does not depend on their order (Go: range over the
    Children map in PostOrder / Totals) *)
@@ -13,3 +229,82 @@ Print Assumptions C06_children_order.
 Theorem C06_sort_total : forall f k alpha valued n, (tsum f k (node_sort alpha valued n) == tsum f k n)%Q.
 Proof. exact tsum_node_sort. Qed.
 Print Assumptions C06_sort_total.
+
+(* SortWeighted's weights: sums over the Amounts map and over the Children map; decimal
+   addition is exact, the weight is the same decimal for every order *)
+Theorem C06_weight_order : forall valued s p hv a1 a2 ch1 ch2,
+  Permutation a1 a2 -> Permutation ch1 ch2 ->
+  node_weight valued (Node s p hv a1 ch1) = node_weight valued (Node s p hv a2 ch2).
+Proof. exact node_weight_perm. Qed.
+Print Assumptions C06_weight_order.
+
+(* the sort of siblings (dict.SortedValues of the Children map) with the comparators of the
+   repaired code -- name; weight then name (bffd269) -- gives one list for all enumeration
+   orders [l'] of the map, and it is the list the model computes from the children in name
+   order; top level: by account type *)
+Theorem C06_sort_siblings : forall alpha valued l l',
+  StronglySorted (fun a b => by_name a b = true) l -> NoDup (map n_seg l) -> Permutation l l' ->
+  (forall n, In n l -> acc_level (n_path n) <> 1) ->
+  sort_by (sibling_ltb alpha valued) l = sort_by (if alpha then by_name else by_weight_name valued) l'.
+Proof. exact sibling_sort_order_free. Qed.
+Print Assumptions C06_sort_siblings.
+
+Theorem C06_sort_top : forall alpha valued l l',
+  NoDup (map (fun n => acc_rank (n_path n)) l) -> Permutation l l' ->
+  (forall n, In n l -> acc_level (n_path n) = 1) ->
+  sort_by (sibling_ltb alpha valued) l = sort_by by_rank l'.
+Proof. exact top_sort_order_free. Qed.
+Print Assumptions C06_sort_top.
+
+(* before bffd269 (weight only): equal weights, two enumeration orders, two results (F6) *)
+Theorem C06_pinned_sort_refuted :
+  exists l1 l2, Permutation l1 l2 /\ NoDup (map n_seg l1) /\
+    sort_by (by_weight false) l1 <> sort_by (by_weight false) l2.
+Proof. exact pinned_sort_refuted. Qed.
+Print Assumptions C06_pinned_sort_refuted.
+
+(* infer: the candidates (sorted keys of countByAccount, e8bd689) are a function of the set of
+   trained accounts; so is the whole inference for any score function *)
+Theorem C06_infer_candidates : forall ph tr1 tr2,
+  (forall x, In x (Bayes.BayesM.trained_accounts ph tr1) <-> In x (Bayes.BayesM.trained_accounts ph tr2)) ->
+  Bayes.BayesM.candidates ph tr1 = Bayes.BayesM.candidates ph tr2.
+Proof. exact InferOrder.candidates_set. Qed.
+Print Assumptions C06_infer_candidates.
+
+(* portfolio weights, DayEnd: `for c, v := range V1 { r.Add(...) }` *)
+Theorem C06_weights_adds : forall u m date total v1 v1',
+  Permutation v1 v1' -> entries_equiv (day_entries u m date total v1) (day_entries u m date total v1').
+Proof. exact day_entries_perm. Qed.
+Print Assumptions C06_weights_adds.
+
+(* ================================================================ C. non-vacuity *)
+
+(* two files with an open on the same day, arriving in both orders: one journal, in path order *)
+Example C06_example_two_files :
+  build_sorted (w_file_a ++ w_file_b) = build_sorted (w_file_b ++ w_file_a) /\
+  build_sorted (w_file_b ++ w_file_a) = [mkDay w_day [] [[s_Assets; [65]]; [s_Assets; [66]]] [] [] [] None] /\
+  build_pinned (w_file_b ++ w_file_a) = [mkDay w_day [] [[s_Assets; [66]]; [s_Assets; [65]]] [] [] [] None].
+Proof. vm_compute. repeat split. Qed.
+
+(* the hypothesis of C06_arrival holds for them *)
+Example C06_example_keys : forall x y,
+  In x (w_file_a ++ w_file_b) -> In y (w_file_a ++ w_file_b) -> fst x = fst y -> x = y.
+Proof. exact w_keys_injective. Qed.
+
+(* a file whose accrual yields two transactions at one offset: the hypothesis of C06_arrival
+   fails, that of C06_arrival_files holds, and the six arrival orders of the three files give
+   one journal *)
+Example C06_example_files_hyp : forall f g x y,
+  In f [w_file_c; w_file_a; w_file_b] -> In g [w_file_c; w_file_a; w_file_b] ->
+  In x f -> In y g -> s_path (fst x) = s_path (fst y) -> f = g.
+Proof. exact w_files_hyp. Qed.
+
+Example C06_example_accrual :
+  (exists x y, In x w_file_c /\ In y w_file_c /\ fst x = fst y /\ x <> y) /\
+  build_sorted_b (concat [w_file_b; w_file_c; w_file_a]) = build_sorted_b (concat [w_file_c; w_file_a; w_file_b]).
+Proof.
+  split.
+  - exists (mkSrc [99;46;107;110;117;116] 0, DTxn (w_txn 120)), (mkSrc [99;46;107;110;117;116] 0, DTxn (w_txn 121)).
+    cbn. repeat split; auto. discriminate.
+  - vm_compute. reflexivity.
+Qed.
